@@ -35,6 +35,8 @@ const (
 	Magic uint32 = 0x3346454E
 	// MaxSourceURLLength is the maximum allowed source URL length.
 	MaxSourceURLLength = 256
+	// MaxMethodTokens is the maximum number of method tokens in a NEF file (as in the reference implementation).
+	MaxMethodTokens = 128
 	// compilerFieldSize is the length of `Compiler` File header field in bytes.
 	compilerFieldSize = 64
 )
@@ -136,7 +138,7 @@ func (n *File) DecodeBinary(r *io.BinReader) {
 		r.Err = errInvalidReserved
 		return
 	}
-	r.ReadArray(&n.Tokens)
+	r.ReadArray(&n.Tokens, MaxMethodTokens)
 	reserved := r.ReadU16LE()
 	if r.Err == nil && reserved != 0 {
 		r.Err = errInvalidReserved
